@@ -1930,3 +1930,31 @@ TABLE["C06"] += [
     B("void-free-functions-assign-an-output", {"M21"},
       (MW, "            varargout = '' \\\n                if return_type_formatted == 'void' \\\n                else 'varargout{1} = '", "            varargout = 'varargout{1} = '")),
 ]
+_GCN = ("    def _guard_class_name(self, arg, instantiated_class=None, is_constructor=False):\n        if instantiated_class and %s:\n"
+        "            return \".\".join(instantiated_class.namespaces()[1:] + [instantiated_class.name, arg.ctype.typename.name])\n"
+        "        return self._format_type_name(arg.ctype.typename, separator='.', is_constructor=is_constructor)\n\n")
+_GCN_EDITS = (
+    (MW, "    def _wrap_variable_arguments(self, args, wrap_datatypes=True):", "    def _wrap_variable_arguments(self, args, wrap_datatypes=True, instantiated_class=None):"),
+    (MW, "                check_type = self._format_type_name(\n                    arg.ctype.typename,\n                    separator='.',\n                    is_constructor=not wrap_datatypes)",
+     "                check_type = self._guard_class_name(arg, instantiated_class, is_constructor=not wrap_datatypes)"),
+    (MW, "                        varargin=self._wrap_variable_arguments(\n                            ctor.args, False),", "                        varargin=self._wrap_variable_arguments(\n                            ctor.args, False, inst_class),"),
+)
+TABLE["C11"] += [
+    B("guard-names-a-foreign-enum-after-the-class", {"H24"},
+      (MW, "    def _wrap_variable_arguments(self, args, wrap_datatypes=True):", (_GCN % "self.is_class_enum(arg.ctype, instantiated_class)") + "    def _wrap_variable_arguments(self, args, wrap_datatypes=True):"),
+      *_GCN_EDITS),
+    N("guard-names-the-class-enum-after-the-class",
+      (MW, "    def _wrap_variable_arguments(self, args, wrap_datatypes=True):", (_GCN % "self.is_class_enum(arg.ctype, instantiated_class) and (not arg.ctype.typename.namespaces or arg.ctype.typename.namespaces[-1] == instantiated_class.name)") + "    def _wrap_variable_arguments(self, args, wrap_datatypes=True):"),
+      *_GCN_EDITS),
+    B("scalar-check-with-a-de-morgan-slip", {"H17"}, (H, "  if (m!=1 || n!=1)\n", "  if (!(m==1 || n==1))\n")),
+    N("scalar-check-negated-conjunction", (H, "  if (m!=1 || n!=1)\n", "  if (!(m==1 && n==1))\n")),
+]
+TABLE["C06"] += [
+    B("guard-names-a-foreign-enum-after-the-class", {"M22"},
+      (MW, "    def _wrap_variable_arguments(self, args, wrap_datatypes=True):", (_GCN % "self.is_class_enum(arg.ctype, instantiated_class)") + "    def _wrap_variable_arguments(self, args, wrap_datatypes=True):"),
+      *_GCN_EDITS),
+]
+TABLE["C18"] += [
+    B("scalar-check-with-a-de-morgan-slip", {"K6", "K10"}, (H, "  if (m!=1 || n!=1)\n", "  if (!(m==1 || n==1))\n")),
+    N("scalar-check-negated-conjunction", (H, "  if (m!=1 || n!=1)\n", "  if (!(m==1 && n==1))\n")),
+]
